@@ -108,6 +108,8 @@ class ShimEvent:
             raise simloop.LoopThreadBlocked('blocking wait on the event-loop thread (a blocking emit / sync() called from a loop callback)')
         me.state = 'blocked'
         me.event = self
+        # a timed wait gives up after `timeout` (virtual) seconds - sync() polls its event like that
+        me.wake = (s.vt() + timeout) if timeout is not None else None
         me.yield_baton()
         return self._flag
 
@@ -259,7 +261,8 @@ def run_threaded(sc, max_rounds=120):
         settled = False
         while True:
             for c in sched.callers:
-                if c.state == 'blocked' and c.event is not None and c.event._flag:
+                if c.state == 'blocked' and c.event is not None and (
+                        c.event._flag or (c.wake is not None and c.wake <= time_base._vt + 1e-12)):
                     c.state = 'ready'
                     c.event = None
                 if c.state == 'sleeping' and c.wake <= time_base._vt + 1e-12:
@@ -282,6 +285,10 @@ def run_threaded(sc, max_rounds=120):
             nt = next_timer()
             busy = any(c.state != 'done' for c in sched.callers)
             cands = wakes + ([nt] if nt is not None else [])
+            if cands:
+                # timed waits of blocked callers run out as time passes; on their own (nothing else can ever
+                # happen) they do not keep a deadlocked run alive
+                cands = cands + [c.wake for c in sched.callers if c.state == 'blocked' and c.wake is not None]
             if not cands:
                 if busy:
                     status = 'deadlock'
